@@ -367,6 +367,24 @@ def group_cases(ctx, n_cases):
                 if tg in tags2 and (M2.metadata["tag"][key] != tg):
                     ctx.fail("oracle", "merge(reset_index): member with data tag %d carries tag=%r" % (tg, M2.metadata["tag"][key]),
                              dict(inp, other_keys=other_keys, other_tags=other_tags))
+            # the same group built with bypass_check=True (the caller vouches for the members; keys given in arbitrary order): its
+            # members, keys and metadata rows still go together, also after a renumbering merge in either position
+            Gb = nap.TsGroup(data, time_support=full, metadata=md, bypass_check=True)
+            check("constructor(bypass_check)", Gb)
+            vals_ = list(Gb.values()); idx_ = [int(x) for x in Gb.index]
+            for pos, key in enumerate(idx_):
+                if ns_arr(vals_[pos].t) != ns_arr(Gb[key].t):
+                    ctx.fail("oracle", "bypass_check group: values()[%d] is not the member of index[%d] = %d" % (pos, pos, key), dict(inp, expr="values()"))
+                    break
+            for what, Mb in (("Gb.merge(H, reset_index)", Gb.merge(H, reset_index=True)), ("H.merge(Gb, reset_index)", H.merge(Gb, reset_index=True))):
+                ctx.count("group:merge(bypass)")
+                for key in Mb.keys():
+                    if len(Mb[key]) == 0:
+                        continue
+                    tg = ns(Mb[key].t[0]) // SC
+                    if tg in tags2 and (Mb.metadata["tag"][key] != tg):
+                        ctx.fail("oracle", "%s: member with data tag %d carries tag=%r" % (what, tg, Mb.metadata["tag"][key]),
+                                 dict(inp, other_keys=other_keys, other_tags=other_tags, expr=what))
         except Exception as e:
             ctx.fail("oracle", "merge raised %r" % (e,), dict(inp, other_keys=other_keys))
 
